@@ -193,6 +193,19 @@ func copyCoverage(w *World, fn *ssa.Function, T *types.Named, depth int, handled
 				if callee == nil || callee.Blocks == nil {
 					continue
 				}
+				// a tail of the copy function split off into a method of the source that takes the copy
+				if rv := callRecv(x); rv != nil && sourceDerived(fn, rv) && callee.Signature.Recv() != nil {
+					takesCopy := false
+					for _, a := range callArgs(x) {
+						if isT(a.Type()) && !sourceDerived(fn, a) {
+							takesCopy = true
+						}
+					}
+					if takesCopy {
+						copyCoverage(w, callee, T, depth-1, handled, shallow, seen)
+						continue
+					}
+				}
 				res := callee.Signature.Results()
 				if res.Len() >= 1 && isT(res.At(0).Type()) {
 					// a constructor / nested copy of the same type: what it sets is set
